@@ -27,6 +27,7 @@ META["claim"] += " " + 'Also: two or three connections of one process, each in t
 META["claim"] += " " + "Round 3b: after send_close() the server's remaining messages (incl. empty ones cut into empty fragments, with pings in between) drained through recv / next / for / recv_data until its close frame; a WebSocketApp reassembly case."
 META["claim"] += " " + "Round 4: texts with a leading / inner byte-order mark and other characters Python's text machinery treats specially; ambient conditions drawn per connection."
 META["claim"] += " " + 'Rounds 6-7: failing automatic pongs between fragments; every API call made by another fresh thread; per-fragment delivery switched on with 1 instead of True.'
+META["claim"] += " " + 'Round 8: messages of 1100 to 20000 (thorough: 70000) fragments with pings strewn in.'
 
 TEXTS = ["", "a", "é", "€", "\U0001f600", "ab€"[:2] + "c", "aé", "\ufeff", "\ufeffa"]
 MORE_TEXTS = TEXTS + H.TRICKY_TEXTS
